@@ -52,12 +52,17 @@ type vstream struct {
 	got  []*proto.BeaconPacket
 	err  error
 	done bool
+	// putStarted: the shared counter of the appender (highest round whose Put has begun); startedAt[j] is its value
+	// when packet j was handed to the consumer
+	putStarted *uint64
+	startedAt  []uint64
 }
 
 func (s *vstream) Context() context.Context { return s.ctx }
 func (s *vstream) Send(b *proto.BeaconPacket) error {
 	vrt.Logf("stream.Send round=%d", b.Round)
 	s.got = append(s.got, b)
+	s.startedAt = append(s.startedAt, *s.putStarted)
 	return nil
 }
 
@@ -73,6 +78,7 @@ func runOne(c cfg, devs []vrt.Dev, labels bool) *explore.Exec {
 	var streams []*vstream
 	var final []*common.Beacon
 	var setupErr error
+	var putStarted uint64
 	s := vrt.Run(vrt.Options{Devs: devs, MaxSteps: 20000, Labels: labels, Watchdog: 60 * time.Second}, func() {
 		ctx := context.Background()
 		base, cleanup, err := fix.NewBackend(ctx, c.Backend, c.Chained)
@@ -103,12 +109,13 @@ func runOne(c cfg, devs []vrt.Dev, labels bool) *explore.Exec {
 				return
 			}
 		}
+		putStarted = c.H0
 		for i, from := range c.Starts {
 			a := fmt.Sprintf("203.0.113.%d:4444", i+1)
 			if c.SameAddr {
 				a = "203.0.113.1:4444"
 			}
-			st := &vstream{ctx: peer.NewContext(ctx, &peer.Peer{Addr: addr(a)})}
+			st := &vstream{ctx: peer.NewContext(ctx, &peer.Peer{Addr: addr(a)}), putStarted: &putStarted}
 			streams = append(streams, st)
 			from := from
 			vrt.GoNamed(fmt.Sprintf("stream%d", i), func() {
@@ -119,6 +126,7 @@ func runOne(c cfg, devs []vrt.Dev, labels bool) *explore.Exec {
 		}
 		vrt.GoNamed("appender", func() {
 			for r := c.H0 + 1; r <= c.H0+uint64(c.Appends); r++ {
+				putStarted = r
 				if err := cbs.Put(ctx, fix.FakeBeacon(r, true)); err != nil {
 					setupErr = fmt.Errorf("append %d: %w", r, err)
 					return
@@ -237,7 +245,13 @@ func runOne(c cfg, devs []vrt.Dev, labels bool) *explore.Exec {
 				}
 				// the full in-memory ring evicts its oldest round on every append: rounds that can have been evicted while
 				// the stream was being served (all below final head - capacity + 1) are not "stored beacons" any more
+				// Only appends that had begun when the packet was handed over can have evicted anything by then: a skipped
+				// round at or above (rounds begun - capacity + 1) was still in the ring when the server read past it.
 				if c.Backend == "memdb" && H >= ringCapacity && p.Round-1 < H-ringCapacity+1 {
+					if begun := st.startedAt[j]; begun+1 >= ringCapacity && p.Round-1 >= begun+1-ringCapacity {
+						add("skipped-stored-round/"+where, fmt.Sprintf("round %d skipped (got %d after %d) although it was still stored: only appends up to round %d had begun, the ring of %d still held rounds %d..", p.Round-1, p.Round, expect-1, begun, ringCapacity, begun+1-ringCapacity))
+						break
+					}
 					expect = p.Round + 1
 					continue
 				}
@@ -290,6 +304,8 @@ func main() {
 		cfgs = append(cfgs, cfg{Backend: "memdb", Chained: true, H0: 3, Appends: 2, Starts: []uint64{1, 3}, Bound: 3})
 		// the in-memory ring exactly full: every append during the scan drops the oldest beacon and shifts the others
 		cfgs = append(cfgs, cfg{Backend: "memdb", Chained: false, H0: 9, Appends: 2, Starts: []uint64{2}, Bound: 3})
+		// ... and the stream starts at the oldest round the ring holds: the beacon the cursor sits on is the next to go
+		cfgs = append(cfgs, cfg{Backend: "memdb", Chained: true, H0: 10, Appends: 2, Starts: []uint64{1}, Bound: 3})
 	} else {
 		for _, be := range backends {
 			for _, ch := range []bool{true, false} {
@@ -304,6 +320,8 @@ func main() {
 		// memdb at capacity: ring trimming during the scan
 		cfgs = append(cfgs, cfg{Backend: "memdb", Chained: false, H0: 9, Appends: 3, Starts: []uint64{1}, Bound: -1})
 		cfgs = append(cfgs, cfg{Backend: "memdb", Chained: true, H0: 9, Appends: 3, Starts: []uint64{5}, Bound: -1})
+		cfgs = append(cfgs, cfg{Backend: "memdb", Chained: true, H0: 10, Appends: 3, Starts: []uint64{1}, Bound: -1})
+		cfgs = append(cfgs, cfg{Backend: "memdb", Chained: false, H0: 11, Appends: 2, Starts: []uint64{2, 3}, Bound: 4})
 	}
 	var jobs []vlib.E1Job
 	for _, k := range cfgs {
